@@ -285,7 +285,10 @@ AttemptRejoin(c) ==
     ELSE IF new[1] = c.st.id THEN [c EXCEPT !.r = FALSE]
     ELSE IF ~Wins(new[1], c.st.id) THEN [c EXCEPT !.r = FALSE]
     ELSE LET c1 == ChangeIdentity(c, new[1]) IN
-         IF ~Live(c1) THEN c1
+         \* (fix) the identity has changed even if the gossip failed to encode: Rejoin is notified
+         \* before the error is propagated
+         IF c1.panic THEN c1
+         ELSE IF ~Live(c1) THEN (IF Fixed("73fde95") THEN Emit(c1, EffNotify(Note("Rejoin", new[1], NoId))) ELSE c1)
          ELSE [Emit(c1, EffNotify(Note("Rejoin", new[1], NoId))) EXCEPT !.r = TRUE]
 
 RejoinOrUndead(c) ==
@@ -385,7 +388,13 @@ ProbeRandomMember(c) ==
               ELSE LET m == nx.mem[nx.pos]
                        p2 == ProbeStart(c3.st.probe, m)
                        c31 == SendMessage([c3 EXCEPT !.st.probe = p2], m.id, Msg("Ping", p2.n, NoId))
-                   IN IF ~Live(c31) THEN c31
+                   IN IF c31.panic THEN c31
+                      ELSE IF ~Live(c31)
+                      THEN \* (fix ea3a2f4) the Ping could not be encoded: the round is abandoned, the next one
+                           \* is scheduled, then the error is returned
+                           IF Fixed("ea3a2f4")
+                           THEN Emit([c31 EXCEPT !.st.probe = ProbeClear(@)], EffTimer(TmProbe(st.tok), st.cfg.period))
+                           ELSE c31
                       ELSE Emit(c31, EffTimer(TmIndirect(m.id, st.tok), st.cfg.rtt))
     IN IF ~Live(c4) THEN c4
        ELSE LET c5 == Emit(c4, EffTimer(TmProbe(st.tok), st.cfg.period)) IN
